@@ -430,4 +430,305 @@ theorem ofBytes_bytesOf (s : List (BitVec 8)) : (bytesOf s).map (BitVec.ofNat 8)
 
 end
 
+/-! ### `hexDecode`, `HexDecode` -/
+
+section
+open Golib.Gen.Trans.C15 (hexDecode_loop1)
+
+/-- value and flag of `fromHexChar` on the `BitVec` side (through the model). -/
+def hexVal (c : BitVec 8) : BitVec 8 := (hexCharPair (Golib.C15.fromHexChar c.toNat)).1
+def hexOk (c : BitVec 8) : Bool := (hexCharPair (Golib.C15.fromHexChar c.toNat)).2
+
+theorem fromHexChar_ok (c : BitVec 8) : Golib.Gen.Trans.C15.fromHexChar c = .ok (hexVal c, hexOk c) :=
+  trans_fromHexChar_eq c
+
+/-- `fmt.Errorf("encoding/hex: invalid byte: %#U", rune(c))` / `hex.ErrLength` / nil as translated. -/
+def errOf : HErr → GoSem.Err
+  | .ok => .nil
+  | .invalidByte c => .mk "encoding/hex: invalid byte: %#U" [(c : Int)]
+  | .length => .mk "encoding/hex.ErrLength" []
+
+/-- The pair loop with the early return made explicit. -/
+inductive DecOut where
+  | early (dst : List (BitVec 8)) (i : Nat) (bad : BitVec 8)
+  | fin (dst : List (BitVec 8)) (i : Nat) (tail : Option (BitVec 8))
+
+def decF : List (BitVec 8) → List (BitVec 8) → Nat → DecOut
+  | a :: b :: rest, dst, i =>
+    if hexOk a = false then .early dst i a
+    else if hexOk b = false then .early dst i b
+    else decF rest (dst.set i ((hexVal a <<< 4) ||| hexVal b)) (i + 1)
+  | [c], dst, i => .fin dst i (some c)
+  | [], dst, i => .fin dst i none
+
+theorem rune_byte (c : BitVec 8) : ((c.setWidth 32).toInt) = (c.toNat : Int) := by
+  revert c; apply forall_byte; decide +kernel
+
+def loopFlow (jend : Int) : DecOut → Flow ((Int × GoSem.Err) × List (BitVec 8)) (List (BitVec 8) × Int × Int)
+  | .early d k bad => .ret (((k : Int), errOf (.invalidByte bad.toNat)), d)
+  | .fin d k _ => .done (d, (k : Int), jend)
+
+theorem idx_pair0 (pre : List (BitVec 8)) (a : BitVec 8) (rest : List (BitVec 8)) :
+    GoSem.idx (pre ++ a :: rest) ((pre.length : Int) + 1 - 1) = .ok a := by
+  have : (pre.length : Int) + 1 - 1 = (pre.length : Int) := by omega
+  rw [this]; exact idx_append pre a rest
+
+theorem idx_pair1 (pre : List (BitVec 8)) (a b : BitVec 8) (rest : List (BitVec 8)) :
+    GoSem.idx (pre ++ a :: b :: rest) ((pre.length : Int) + 1) = .ok b := by
+  have := idx_append (pre ++ [a]) b rest
+  simpa using this
+
+theorem setIdx_lt (dst : List (BitVec 8)) (i : Nat) (v : BitVec 8) (h : i < dst.length) :
+    GoSem.setIdx dst (i : Int) v = .ok (dst.set i v) := by
+  simp [GoSem.setIdx, h]
+
+theorem dec_loop_eq (rest dst : List (BitVec 8)) (i : Nat) :
+    ∀ (pre : List (BitVec 8)) (fuel : Nat), i + rest.length / 2 ≤ dst.length → rest.length < fuel →
+      hexDecode_loop1 fuel (pre ++ rest) dst (i : Int) ((pre.length : Int) + 1)
+        = .ok (loopFlow ((pre.length : Int) + 2 * ((rest.length / 2 : Nat) : Int) + 1) (decF rest dst i)) := by
+  fun_induction decF rest dst i with
+  | case1 a b rest dst i ha =>
+    intro pre fuel hroom hf
+    obtain ⟨f, rfl⟩ : ∃ f, fuel = f + 1 := ⟨fuel - 1, by simp at hf; omega⟩
+    have hlen : (pre.length : Int) + 1 < Int.ofNat (pre ++ a :: b :: rest).length := by simp; omega
+    unfold hexDecode_loop1
+    simp only [hlen, decide_true, if_true, idx_pair0, fromHexChar_ok, bind, pure, Res.bind_ok', ha, Bool.not_false,
+      rune_byte, loopFlow, errOf]
+  | case2 a b rest dst i ha hb =>
+    intro pre fuel hroom hf
+    obtain ⟨f, rfl⟩ : ∃ f, fuel = f + 1 := ⟨fuel - 1, by simp at hf; omega⟩
+    have hlen : (pre.length : Int) + 1 < Int.ofNat (pre ++ a :: b :: rest).length := by simp; omega
+    have ha' : hexOk a = true := by simpa using ha
+    unfold hexDecode_loop1
+    simp only [hlen, decide_true, if_true, idx_pair0, idx_pair1, fromHexChar_ok, bind, pure, Res.bind_ok', ha', hb,
+      Bool.not_false, Bool.not_true, Bool.false_eq_true, if_false, rune_byte, loopFlow, errOf]
+  | case3 a b rest dst i ha hb ih =>
+    intro pre fuel hroom hf
+    obtain ⟨f, rfl⟩ : ∃ f, fuel = f + 1 := ⟨fuel - 1, by simp at hf; omega⟩
+    have hlen : (pre.length : Int) + 1 < Int.ofNat (pre ++ a :: b :: rest).length := by simp; omega
+    have ha' : hexOk a = true := by simpa using ha
+    have hb' : hexOk b = true := by simpa using hb
+    have hi : i < dst.length := by simp only [List.length_cons] at hroom; omega
+    have hstep := ih (pre ++ [a, b]) f (by simp only [List.length_set, List.length_cons] at hroom ⊢; omega)
+      (by simp only [List.length_cons] at hf; omega)
+    unfold hexDecode_loop1
+    simp only [hlen, decide_true, if_true, idx_pair0, idx_pair1, fromHexChar_ok, bind, pure, Res.bind_ok', ha', hb',
+      Bool.not_true, Bool.false_eq_true, if_false, setIdx_lt dst i _ hi]
+    have e1 : ((pre ++ [a, b]).length : Int) + 1 = (pre.length : Int) + 1 + 2 := by
+      simp only [List.length_append, List.length_cons, List.length_nil]; omega
+    have e2 : ((i + 1 : Nat) : Int) = (i : Int) + 1 := by omega
+    have e3 : ((pre ++ [a, b]).length : Int) + 2 * ((rest.length / 2 : Nat) : Int) + 1
+        = (pre.length : Int) + 2 * (((a :: b :: rest).length / 2 : Nat) : Int) + 1 := by
+      simp only [List.length_append, List.length_cons, List.length_nil]; omega
+    rw [e1, e2, e3] at hstep
+    simpa only [List.append_assoc, List.cons_append, List.nil_append] using hstep
+  | case4 c dst i =>
+    intro pre fuel hroom hf
+    obtain ⟨f, rfl⟩ : ∃ f, fuel = f + 1 := ⟨fuel - 1, by simp at hf; omega⟩
+    have hlen : ¬ ((pre.length : Int) + 1 < Int.ofNat (pre ++ [c]).length) := by simp
+    unfold hexDecode_loop1
+    simp [hlen, loopFlow, decF]
+  | case5 dst i =>
+    intro pre fuel hroom hf
+    obtain ⟨f, rfl⟩ : ∃ f, fuel = f + 1 := ⟨fuel - 1, by simp at hf; omega⟩
+    unfold hexDecode_loop1
+    simp [loopFlow, decF]
+    omega
+
+theorem decF_fin_some (rest dst : List (BitVec 8)) (i : Nat) :
+    ∀ d k c, decF rest dst i = .fin d k (some c) →
+      rest.length % 2 = 1 ∧ ∀ pre : List (BitVec 8),
+        GoSem.idx (pre ++ rest) ((pre.length : Int) + 2 * ((rest.length / 2 : Nat) : Int) + 1 - 1) = .ok c := by
+  fun_induction decF rest dst i with
+  | case1 => intro d k c h; simp at h
+  | case2 => intro d k c h; simp at h
+  | case3 a b rest dst i ha hb ih =>
+    intro d k c h
+    obtain ⟨h1, h2⟩ := ih d k c h
+    refine ⟨by simp only [List.length_cons]; omega, fun pre => ?_⟩
+    have := h2 (pre ++ [a, b])
+    have e : ((pre ++ [a, b]).length : Int) + 2 * ((rest.length / 2 : Nat) : Int) + 1 - 1
+        = (pre.length : Int) + 2 * (((a :: b :: rest).length / 2 : Nat) : Int) + 1 - 1 := by
+      simp only [List.length_append, List.length_cons, List.length_nil]; omega
+    rw [e] at this
+    simpa only [List.append_assoc, List.cons_append, List.nil_append] using this
+  | case4 c0 dst i =>
+    intro d k c h
+    simp only [DecOut.fin.injEq, Option.some.injEq] at h
+    obtain ⟨_, _, rfl⟩ := h
+    refine ⟨rfl, fun pre => ?_⟩
+    have : (pre.length : Int) + 2 * (([c0].length / 2 : Nat) : Int) + 1 - 1 = (pre.length : Int) := by
+      simp
+    rw [this]; exact idx_append pre c0 []
+  | case5 => intro d k c h; simp at h
+
+theorem decF_fin_none (rest dst : List (BitVec 8)) (i : Nat) :
+    ∀ d k, decF rest dst i = .fin d k none → rest.length % 2 = 0 := by
+  fun_induction decF rest dst i with
+  | case1 => intro d k h; simp at h
+  | case2 => intro d k h; simp at h
+  | case3 a b rest dst i ha hb ih =>
+    intro d k h
+    have := ih d k h
+    simp only [List.length_cons]; omega
+  | case4 => intro d k h; simp at h
+  | case5 => intro d k h; rfl
+
+/-- What `hexDecode(dst, src)` returns, from the pair loop `decF`. -/
+def decRes (src dst : List (BitVec 8)) : (Int × GoSem.Err) × List (BitVec 8) :=
+  match decF src dst 0 with
+  | .early d k bad => (((k : Int), errOf (.invalidByte bad.toNat)), d)
+  | .fin d k none => (((k : Int), errOf .ok), d)
+  | .fin d k (some c) =>
+    if hexOk c then (((k : Int), errOf .length), d) else (((k : Int), errOf (.invalidByte c.toNat)), d)
+
+theorem trans_hexDecode_eq (dst src : List (BitVec 8)) (h : src.length / 2 ≤ dst.length) :
+    Golib.Gen.Trans.C15.hexDecode dst src = .ok (decRes src dst) := by
+  unfold Golib.Gen.Trans.C15.hexDecode decRes
+  have hl := dec_loop_eq src dst 0 [] (src.length + 1) (by omega) (by omega)
+  simp only [List.nil_append, List.length_nil, Int.natCast_zero, Int.zero_add] at hl
+  simp only [bind, pure, hl, Res.bind_ok']
+  generalize hr : decF src dst 0 = r
+  match r with
+  | .early d k bad => simp only [loopFlow]
+  | .fin d k none =>
+    have hev := decF_fin_none src dst 0 d k hr
+    have ht : Int.tmod (Int.ofNat src.length) 2 = ((src.length % 2 : Nat) : Int) := rfl
+    have : (Int.tmod (Int.ofNat src.length) 2 == 1) = false := by
+      rw [ht]; simp only [beq_eq_false_iff_ne, ne_eq]; omega
+    simp only [loopFlow, this, Bool.false_eq_true, if_false, errOf]
+  | .fin d k (some c) =>
+    obtain ⟨hodd, hidx⟩ := decF_fin_some src dst 0 d k c hr
+    have hidx' := hidx []
+    simp only [List.nil_append, List.length_nil, Int.natCast_zero, Int.zero_add] at hidx'
+    have ht : Int.tmod (Int.ofNat src.length) 2 = ((src.length % 2 : Nat) : Int) := rfl
+    have : (Int.tmod (Int.ofNat src.length) 2 == 1) = true := by
+      rw [ht]; simp only [beq_iff_eq]; omega
+    simp only [loopFlow, this, if_true, hidx', fromHexChar_ok, Res.bind_ok', rune_byte, errOf]
+    cases hexOk c <;> simp
+
+/-- Every byte: the model's `fromHexChar` against value and flag on the `BitVec` side. -/
+theorem hex_fact_raw (a : BitVec 8) :
+    (Golib.C15.fromHexChar a.toNat).isSome = hexOk a ∧
+    (Golib.C15.fromHexChar a.toNat).getD 0 = (hexVal a).toNat ∧
+    (Golib.C15.fromHexChar a.toNat).getD 0 < 16 := by
+  revert a; apply forall_byte; decide +kernel
+
+theorem hex_fact (a : BitVec 8) :
+    match Golib.C15.fromHexChar a.toNat with
+    | some x => hexOk a = true ∧ (hexVal a).toNat = x ∧ x < 16
+    | none => hexOk a = false := by
+  have h := hex_fact_raw a
+  cases hx : Golib.C15.fromHexChar a.toNat with
+  | none => simp only [hx, Option.isSome_none] at h ⊢; exact h.1.symm
+  | some x => simp only [hx, Option.isSome_some, Option.getD_some] at h ⊢; exact ⟨h.1.symm, h.2.1.symm, h.2.2⟩
+
+/-- The model's view of a `decF` outcome. -/
+def modelOf : DecOut → List Nat × Nat × HErr
+  | .early d k bad => (bytesOf d, k, .invalidByte bad.toNat)
+  | .fin d k none => (bytesOf d, k, .ok)
+  | .fin d k (some c) => (bytesOf d, k, if hexOk c then .length else .invalidByte c.toNat)
+
+theorem model_dec (rest dst : List (BitVec 8)) (i : Nat) :
+    i + rest.length / 2 ≤ dst.length →
+      hexDecodeLoop (bytesOf rest) (bytesOf dst) i = some (modelOf (decF rest dst i)) := by
+  fun_induction decF rest dst i with
+  | case1 a b rest dst i ha =>
+    intro _
+    have fa := hex_fact a
+    simp only [bytesOf, List.map_cons, hexDecodeLoop, modelOf]
+    split at fa
+    · rw [fa.1] at ha; exact absurd ha (by decide)
+    · rename_i hn; simp only [hn]
+  | case2 a b rest dst i ha hb =>
+    intro _
+    have fa := hex_fact a
+    have fb := hex_fact b
+    simp only [bytesOf, List.map_cons, hexDecodeLoop, modelOf]
+    split at fa
+    · rename_i x hx
+      simp only [hx]
+      split at fb
+      · rw [fb.1] at hb; exact absurd hb (by decide)
+      · rename_i hn; simp only [hn]
+    · exact absurd fa ha
+  | case3 a b rest dst i ha hb ih =>
+    intro hroom
+    have fa := hex_fact a
+    have fb := hex_fact b
+    have hi : i < dst.length := by simp only [List.length_cons] at hroom; omega
+    have ih' := ih (by simp only [List.length_set, List.length_cons] at hroom ⊢; omega)
+    simp only [bytesOf, List.map_cons, hexDecodeLoop] at ih' ⊢
+    split at fa
+    · rename_i x hx
+      split at fb
+      · rename_i y hy
+        have hv : (hexVal a <<< 4 ||| hexVal b).toNat = ((x <<< 4) % 256) ||| y := by
+          simp only [BitVec.toNat_or, BitVec.toNat_shiftLeft, fa.2.1, fb.2.1, Nat.reducePow]
+        simp only [hx, hy, setByte, List.length_map, hi, if_true, ← hv, ← List.map_set]
+        exact ih'
+      · exact absurd fb hb
+    · exact absurd fa ha
+  | case4 c dst i =>
+    intro _
+    have fc := hex_fact c
+    simp only [bytesOf, List.map_cons, List.map_nil, hexDecodeLoop, modelOf]
+    split at fc
+    · rename_i x hx; simp only [hx, fc.1, if_true]
+    · rename_i hn; simp only [hn, fc, Bool.false_eq_true, if_false]
+  | case5 dst i => intro _; simp only [bytesOf, List.map_nil, hexDecodeLoop, modelOf]
+
+theorem decF_bounds (rest dst : List (BitVec 8)) (i : Nat) :
+    match decF rest dst i with
+    | .early d k _ => d.length = dst.length ∧ k ≤ i + rest.length / 2
+    | .fin d k _ => d.length = dst.length ∧ k ≤ i + rest.length / 2 := by
+  fun_induction decF rest dst i with
+  | case1 a b rest dst i ha => exact ⟨rfl, by omega⟩
+  | case2 a b rest dst i ha hb => exact ⟨rfl, by omega⟩
+  | case3 a b rest dst i ha hb ih =>
+    revert ih
+    generalize decF rest (dst.set i (hexVal a <<< 4 ||| hexVal b)) (i + 1) = r
+    cases r <;> simp only [List.length_set, List.length_cons] <;> intro h <;> exact ⟨h.1, by omega⟩
+  | case4 c dst i => exact ⟨rfl, by omega⟩
+  | case5 dst i => exact ⟨rfl, by omega⟩
+
+/-- The regenerated `HexDecode` against the model's `hexDecode?`: the model does not panic and
+the code returns its decoded prefix and its error (as class). -/
+theorem trans_HexDecode_eq (s : List (BitVec 8)) :
+    ∃ out e, hexDecode? (bytesOf s) = some (bytesOf out, e) ∧
+      Golib.Gen.Trans.C15.HexDecode s = .ok (out, errOf e) := by
+  let dst := List.replicate (s.length / 2) (0#8)
+  have hroom : s.length / 2 ≤ dst.length := by simp [dst]
+  have hm := model_dec s dst 0 (by omega)
+  have hb := decF_bounds s dst 0
+  have hd := trans_hexDecode_eq dst s hroom
+  have hmk : GoSem.makeSlice 0#8 (Int.tdiv (Int.ofNat s.length) 2) = .ok dst := by
+    have : Int.tdiv (Int.ofNat s.length) 2 = ((s.length / 2 : Nat) : Int) := rfl
+    rw [this, makeSlice_ok]
+  have hz : bytesOf dst = List.replicate ((bytesOf s).length / 2) 0 := by simp [dst, bytesOf]
+  rw [hz] at hm
+  unfold Golib.Gen.Trans.C15.HexDecode hexDecode?
+  simp only [bind, pure, hmk, Res.bind_ok', hd, hm, decRes]
+  have hslice : ∀ (d : List (BitVec 8)) (k : Nat), k ≤ d.length →
+      GoSem.slice d 0 (k : Int) = .ok (d.take k) := by
+    intro d k hk; simp [GoSem.slice]; omega
+  revert hb
+  generalize decF s dst 0 = r
+  intro hb
+  match r with
+  | .early d k bad =>
+    have hk : k ≤ d.length := by simp only [dst, List.length_replicate] at hb; omega
+    exact ⟨d.take k, .invalidByte bad.toNat, by simp [modelOf, bytesOf, List.map_take],
+      by simp only [hslice d k hk, Res.bind_ok']⟩
+  | .fin d k none =>
+    have hk : k ≤ d.length := by simp only [dst, List.length_replicate] at hb; omega
+    exact ⟨d.take k, .ok, by simp [modelOf, bytesOf, List.map_take], by simp only [hslice d k hk, Res.bind_ok']⟩
+  | .fin d k (some c) =>
+    have hk : k ≤ d.length := by simp only [dst, List.length_replicate] at hb; omega
+    refine ⟨d.take k, if hexOk c then .length else .invalidByte c.toNat,
+      by simp [modelOf, bytesOf, List.map_take], ?_⟩
+    cases hc : hexOk c <;> simp [hc, hslice d k hk]
+
+end
+
 end Golib.C15.Tie
